@@ -959,6 +959,17 @@ func (r *Runner) exec(cmd string, t *toks) string {
 			return r.ok("nil")
 		}
 		return r.ok(strconv.Itoa(*(v.(*int))))
+	case "reslook":
+		// look the k-th registered resource type up again by its type
+		k := t.nat()
+		t.end()
+		if k >= len(r.resIDs) {
+			panic(badRef{})
+		}
+		id := ecs.ResourceTypeID(w, reflect.ArrayOf(k+1, byteType))
+		tp, okT := ecs.ResourceType(w, id)
+		same := okT && tp == reflect.ArrayOf(k+1, byteType)
+		return r.ok(fmt.Sprintf("%d n=%d type=%v", int(ecs.VerifResIDValue(id)), len(ecs.ResourceIDs(w)), same))
 	case "reshas":
 		k := t.nat()
 		t.end()
